@@ -53,6 +53,8 @@ pub struct Call
     pub ok : bool,
     pub mutating : bool,
     pub in_command : bool,
+    /// for a rename: 0 = destination absent, 1 = destination held identical content, 2 = different content
+    pub dest_state : u8,
 }
 
 pub struct FsState
@@ -136,6 +138,7 @@ impl FsState
                 ok : ok,
                 mutating : mutating,
                 in_command : self.in_command,
+                dest_state : 0,
             });
         }
     }
@@ -567,8 +570,15 @@ impl System for MemSys
         verif_sched::yield_point();
         let mut g = self.state.lock().unwrap();
         g.before_mutation(format!("rename {} {}", from, to));
+        let dest_state = match (g.disk.files.get(from), g.disk.files.get(to))
+        {
+            (_, None) => 0,
+            (Some(a), Some(b)) => if a.content == b.content { 1 } else { 2 },
+            (None, Some(_)) => 2,
+        };
         let r = g.rename(from, to);
         g.record("rename", from, to, r.is_ok(), true);
+        if g.log_calls { if let Some(last) = g.calls.last_mut() { last.dest_state = dest_state; } }
         r
     }
 
